@@ -106,6 +106,34 @@ func appendSignature() {
 	}
 }
 
+// evaluationStep reads and evaluates one top-level token. A runtime panic inside the
+// evaluator (malformed or incomplete source, as an editor sends it while the user
+// types) is reported as a diagnostic on the current row instead of ending the process.
+func evaluationStep(
+	evaluator *eval.Evaluator,
+	p *parser.Parser,
+	ctx context.Context,
+) (t *base.T) {
+
+	defer func() {
+		if r := recover(); r != nil {
+			p.Fatal(ctx, fmt.Errorf("internal error: %v", r))
+		}
+	}()
+
+	t, err := p.Read()
+	if err != nil {
+		p.Fatal(ctx, err)
+	}
+
+	err = evaluator.Eval(p, ctx, t)
+	if err != nil {
+		p.Fatal(ctx, err)
+	}
+
+	return t
+}
+
 func evaluationLoop(
 	p parser.Parser,
 	flags *cmd.ExecuteFlags,
@@ -119,15 +147,7 @@ func evaluationLoop(
 	p.Errors = []error{}
 
 	for {
-		t, err := p.Read()
-		if err != nil {
-			p.Fatal(ctx, err)
-		}
-
-		err = evaluator.Eval(&p, ctx, t)
-		if err != nil {
-			p.Fatal(ctx, err)
-		}
+		t := evaluationStep(&evaluator, &p, ctx)
 
 		if t != nil {
 			continue
